@@ -10,6 +10,8 @@ import (
 	"github.com/tonkeeper/tongo/ton"
 
 	"verifharness/internal/core"
+	"verifharness/internal/gen"
+	"verifharness/internal/ref"
 	"verifharness/internal/tlbref"
 )
 
@@ -94,3 +96,43 @@ var externalCheck = &core.Check{Name: "c04/external", Quick: 600, Thorough: 6000
 }}
 
 func TestExternal(t *testing.T) { core.Run(t, externalCheck) }
+
+// c04/extern-limit: addr_extern$01 len:(## 9) external_address:(bits len) has room for 0..511 bits. Lengths up to
+// 511 must give exactly that layout; a longer external address has no layout and must be refused, not written
+// with a wrapped length. tape: length 505..520.
+var externLimitCheck = &core.Check{Name: "c04/extern-limit", Fn: func(c *core.Ctx) error {
+	n := 505 + c.Intn("len", 16)
+	bits := make(ref.Bits, n)
+	for i := range bits {
+		bits[i] = (i*7+n)%3 == 0
+	}
+	bs := gen.BitString(bits)
+	addr := tlb.MsgAddress{SumType: "AddrExtern", AddrExtern: &bs}
+	c.Note("external address bits", n)
+	c.NonTrivial(n)
+	cell := boc.NewCell()
+	err := tlb.Marshal(cell, addr)
+	if n > 511 {
+		if err == nil {
+			return fmt.Errorf("an external address of %d bits was encoded without an error although len:(## 9) ends at 511: cell of %d bits", n, cell.BitSize())
+		}
+		c.Class("refused")
+		return nil
+	}
+	if err != nil {
+		return fmt.Errorf("an external address of %d bits is refused: %v", n, err)
+	}
+	var b tlbref.B
+	b.Addr(tlbref.Addr{Kind: 1, Ext: bits})
+	return sameAsRef(cell, b.Cell(), fmt.Sprintf("addr_extern of %d bits", n))
+}}
+
+func TestExternLimit(t *testing.T) {
+	core.RunEnum(t, externLimitCheck, "external addresses of 505..520 bits", func(yield func(...uint64) bool) {
+		for i := 0; i < 16; i++ {
+			if !yield(uint64(i)) {
+				return
+			}
+		}
+	})
+}
